@@ -35,7 +35,7 @@ type c06Pkt struct {
 	data     []byte
 }
 
-type c06Bus struct{ ipcp []c06Pkt }
+type c06Bus struct{ ipcp, v6 []c06Pkt }
 
 func (b *c06Bus) Publish(topic string, ev events.Event) {
 	if topic != events.TopicEgress {
@@ -47,15 +47,23 @@ func (b *c06Bus) Publish(topic string, ev events.Event) {
 	}
 	raw := eg.Packet.RawData
 	// PPPoE header (6) + PPP protocol (2) + code, id, length(2)
-	if len(raw) < 12 || uint16(raw[6])<<8|uint16(raw[7]) != ppp.ProtoIPCP {
+	if len(raw) < 12 {
+		return
+	}
+	proto := uint16(raw[6])<<8 | uint16(raw[7])
+	if proto != ppp.ProtoIPCP && proto != ppp.ProtoIPv6CP {
 		return
 	}
 	l := int(raw[10])<<8 | int(raw[11])
-	if l < 4 || 8+l > len(raw) {
-		b.ipcp = append(b.ipcp, c06Pkt{code: 255})
-		return
+	pkt := c06Pkt{code: 255}
+	if l >= 4 && 8+l <= len(raw) {
+		pkt = c06Pkt{code: raw[8], id: raw[9], data: append([]byte(nil), raw[12:8+l]...)}
 	}
-	b.ipcp = append(b.ipcp, c06Pkt{code: raw[8], id: raw[9], data: append([]byte(nil), raw[12:8+l]...)})
+	if proto == ppp.ProtoIPCP {
+		b.ipcp = append(b.ipcp, pkt)
+	} else {
+		b.v6 = append(b.v6, pkt)
+	}
 }
 func (b *c06Bus) Subscribe(string, events.Handler) events.Subscription { return c06Sub{} }
 func (b *c06Bus) SubscribeAll(events.Handler) events.Subscription      { return c06Sub{} }
@@ -195,21 +203,37 @@ func c06Sess(f []string) string {
 		Username:       "u",
 		Attributes:     map[string]string{},
 	}
-	s.initPPP()
+	a0, al0, rs0 := c06Split3(f[0])
+	if strings.HasPrefix(a0, "restore:") {
+		// a checkpointed session in PhaseOpen comes back after a restart: the real installInMemoryState
+		c.sessions = map[string]*SessionState{}
+		c.sidIndex = map[uint16]*SessionState{}
+		c.sessionIDIndex = map[string]*SessionState{}
+		c.acctSessionIndex = map[string]*SessionState{}
+		c.usernameIndex = map[string]*SessionState{}
+		c.ipv4Index = map[string]*SessionState{}
+		c.ipv6Index = map[string]*SessionState{}
+		s.component = nil
+		s.IPv4Address = net.IP(c06Bytes(a0[len("restore:"):]))
+		s.Phase = ppp.PhaseOpen
+		s.LCPMagic = 0x01020304
+		c.installInMemoryState(s)
+	} else {
+		s.initPPP()
+		if a0 != "none" {
+			s.Attributes[aaa.AttrIPv4Address] = net.IP(c06Bytes(a0)).String()
+		}
+		s.extractIPFromAttributes()
+		c06Registry(s, al0, rs0)
+		// the authentication phase is over but the network phase is not entered: checkOpen then only logs
+		s.Phase = ppp.PhaseAuthenticate
+		s.startNCP()
+	}
 	defer func() {
 		s.ipcp.FSM().Kill()
 		s.ipv6cp.FSM().Kill()
 		s.lcp.FSM().Kill()
 	}()
-	a0, al0, rs0 := c06Split3(f[0])
-	if a0 != "none" {
-		s.Attributes[aaa.AttrIPv4Address] = net.IP(c06Bytes(a0)).String()
-	}
-	s.extractIPFromAttributes()
-	c06Registry(s, al0, rs0)
-	// the authentication phase is over but the network phase is not entered: checkOpen then only logs
-	s.Phase = ppp.PhaseAuthenticate
-	s.startNCP()
 	var parts []string
 	var lastReq *c06Pkt
 	drain := func() string {
@@ -302,6 +326,121 @@ func c06Sess(f []string) string {
 	return strings.Join(parts, " | ")
 }
 
+// IPv6CP inside a real PPPoE session: startNCP (SetInterfaceID from the BNG MAC, Up, Open), then the
+// subscriber's packets; "e<id>" proposes exactly the identifier the BNG's last Configure-Request carried.
+func c06Sess6(f []string) string {
+	mac := c06Bytes(f[0])
+	ifMgr := ifmgr.New()
+	ifMgr.Add(&ifmgr.Interface{SwIfIndex: 10, SupSwIfIndex: 2, Name: "TenGigE0/0.100", Type: ifmgr.IfTypeSub, OuterVlanID: 100})
+	ifMgr.Add(&ifmgr.Interface{SwIfIndex: 2, Name: "TenGigE0/0", Type: ifmgr.IfTypeHardware, MAC: mac})
+	bus := &c06Bus{}
+	c := &Component{
+		Base:     component.NewBase("pppoe-verif"),
+		logger:   logger.NewTest(),
+		eventBus: bus,
+		ifMgr:    ifMgr,
+		cfgMgr:   &c06CfgMgr{cfg: &config.Config{}},
+	}
+	s := &SessionState{
+		component:      c,
+		SessionID:      "s1",
+		PPPoESessionID: 7,
+		MAC:            net.HardwareAddr{0xaa, 0x42, 0xa1, 0x0a, 0x54, 0x97},
+		OuterVLAN:      100,
+		EncapIfIndex:   10,
+		Username:       "u",
+		Attributes:     map[string]string{aaa.AttrIPv4Address: "10.0.0.5"},
+	}
+	s.initPPP()
+	defer func() {
+		s.ipcp.FSM().Kill()
+		s.ipv6cp.FSM().Kill()
+		s.lcp.FSM().Kill()
+	}()
+	s.extractIPFromAttributes()
+	s.Phase = ppp.PhaseAuthenticate
+	s.startNCP()
+	var lastReq *c06Pkt
+	show := func() string {
+		local := s.ipv6cp.LocalConfig().InterfaceID
+		var acts []string
+		for i := range bus.v6 {
+			p := bus.v6[i]
+			switch p.code {
+			case ppp.ConfReq:
+				lastReq = &bus.v6[i]
+				acts = append(acts, "scr:"+c06ShowWire(p.data))
+			case ppp.ConfAck:
+				acts = append(acts, fmt.Sprintf("sca:%d:%s", p.id, c06ShowWire(p.data)))
+			case ppp.ConfNak:
+				// the suggested identifier is random: projected when it is 8 bytes, non-zero, not the local one
+				d := p.data
+				if len(d)%10 == 0 && len(d) > 0 {
+					var parts []string
+					ok := true
+					for j := 0; j < len(d); j += 10 {
+						id := d[j+2 : j+10]
+						if d[j] != 1 || d[j+1] != 10 || string(id) == string(local[:]) || string(id) == string(make([]byte, 8)) {
+							ok = false
+						}
+						parts = append(parts, "1.S")
+					}
+					if ok {
+						acts = append(acts, fmt.Sprintf("scn:%d:%s", p.id, strings.Join(parts, ",")))
+						continue
+					}
+				}
+				acts = append(acts, fmt.Sprintf("scn:%d:%s", p.id, c06ShowWire(p.data)))
+			case ppp.ConfRej:
+				acts = append(acts, fmt.Sprintf("scj:%d:%s", p.id, c06ShowWire(p.data)))
+			case ppp.TermAck:
+				acts = append(acts, fmt.Sprintf("sta:%d", p.id))
+			default:
+				acts = append(acts, fmt.Sprintf("x%d", p.code))
+			}
+		}
+		bus.v6 = nil
+		a := "-"
+		if len(acts) > 0 {
+			a = strings.Join(acts, " ")
+		}
+		up := 0
+		if s.ipv6cpOpen {
+			up = 1
+		}
+		return fmt.Sprintf("%s up=%d lid=%s", a, up, c06Hex(local[:]))
+	}
+	parts := []string{show()}
+	for _, ev := range f[1:] {
+		var rid uint8
+		var rdata []byte
+		if lastReq != nil {
+			rid, rdata = lastReq.id, lastReq.data
+		}
+		switch ev[0] {
+		case 'q':
+			i := strings.IndexByte(ev, '.')
+			id, _ := strconv.Atoi(ev[1:i])
+			s.ipv6cp.FSM().Input(ppp.ConfReq, uint8(id), c06Bytes(ev[i+1:]))
+		case 'e':
+			id, _ := strconv.Atoi(ev[1:])
+			s.ipv6cp.FSM().Input(ppp.ConfReq, uint8(id), rdata)
+		case 'k':
+			s.ipv6cp.FSM().Input(ppp.ConfAck, rid, rdata)
+		case 'n':
+			s.ipv6cp.FSM().Input(ppp.ConfNak, rid, c06Bytes(ev[1:]))
+		case 'j':
+			s.ipv6cp.FSM().Input(ppp.ConfRej, rid, c06Bytes(ev[1:]))
+		case 'R':
+			s.startNCP()
+		default:
+			return "badevent"
+		}
+		parts = append(parts, show())
+	}
+	return strings.Join(parts, " | ")
+}
+
 func c06Case(line string) (out string) {
 	defer func() {
 		if r := recover(); r != nil {
@@ -313,6 +452,9 @@ func c06Case(line string) (out string) {
 		}
 	}()
 	f := strings.Fields(line)
+	if len(f) >= 2 && f[0] == "s6" {
+		return c06Sess6(f[1:])
+	}
 	if len(f) < 2 || f[0] != "sess" {
 		return "badline"
 	}
